@@ -852,16 +852,22 @@ let to_signed w x =
 let of_signed w z0 =
   Z.to_N (Z.modulo z0 (Z.of_N (N.pow (Npos (XO XH)) w)))
 
-type trg = { t_udp : n; t_ts : n; t_out : n; t_in : n; t_pulser : n;
-             t_trigbm : n; t_nim : n; t_esata : n; t_mlu : bool; t_aw16p : 
-             n; t_drift : n; t_scaled : n; t_aw16m : n; t_aw16b : n;
-             t_bsc : n; t_bscm : n; t_coin : n; t_fw : n }
-
 (** val rd_le : n list -> n -> n -> n res **)
 
 let rd_le l a n0 =
   bind (slice l a (N.add a n0)) (fun s ->
     bind (arr n0 s) (fun s' -> Ok (le_val s')))
+
+(** val rd_be : n list -> n -> n -> n res **)
+
+let rd_be l a n0 =
+  bind (slice l a (N.add a n0)) (fun s ->
+    bind (arr n0 s) (fun s' -> Ok (be_val s')))
+
+type trg = { t_udp : n; t_ts : n; t_out : n; t_in : n; t_pulser : n;
+             t_trigbm : n; t_nim : n; t_esata : n; t_mlu : bool; t_aw16p : 
+             n; t_drift : n; t_scaled : n; t_aw16m : n; t_aw16b : n;
+             t_bsc : n; t_bscm : n; t_coin : n; t_fw : n }
 
 (** val e_len : n **)
 
@@ -1465,12 +1471,6 @@ let bASELINE_SAMPLES =
 let mIN_KEEP_LAST =
   N.add (N.div (N.add bASELINE_SAMPLES (Npos (XO XH))) (Npos (XO XH))) (Npos
     XH)
-
-(** val rd_be : n list -> n -> n -> n res **)
-
-let rd_be l a n0 =
-  bind (slice l a (N.add a n0)) (fun s ->
-    bind (arr n0 s) (fun s' -> Ok (be_val s')))
 
 (** val list_eqb : n list -> n list -> bool **)
 
